@@ -101,6 +101,165 @@ def tup(mat):
     return tuple(tuple(int(v) for v in row) for row in mat)
 
 
+
+def check_manager(mgr, dvs, case, pats, existences, refs, res, viol, is_violation_imputer=False, kind='selected',
+                  max_space=6000):
+    """All C10 laws (and the manager-level C07 laws) on one assignment manager."""
+    from adsg_core.optimization.assign_enc.matrix import NodeExistence
+    feats = res['features']
+    feats[kind if kind != 'pattern' else 'pattern_ok'] = feats.get(kind if kind != 'pattern' else 'pattern_ok', 0) + 1
+    res['states'] += 1
+    n_opts = [dv.n_opts for dv in dvs]
+    size = int(np.prod(n_opts)) if n_opts else 1
+    if size > max_space:
+        res.setdefault('caps', {})['space_too_large'] = res.get('caps', {}).get('space_too_large', 0) + 1
+        return
+    space = list(itertools.product(*[range(k) for k in n_opts]))
+    extra = []
+    base = [0]*len(n_opts)
+    for i, k in enumerate(n_opts):
+        for v in (-1, k, k+3):
+            x = list(base)
+            x[i] = v
+            extra.append(tuple(x))
+    extra.append(tuple(base+[0]))
+    extra.append(tuple(base+[1, 1]))
+    try:
+        all_dv = mgr.get_all_design_vectors()
+    except Exception as e:
+        viol('get-all-design-vectors-raised', dict(exc=(type(e).__name__, str(e)[:200])))
+        return
+    used_values = [set() for _ in n_opts]
+    ok_encoder = True
+    for (se, te), existence, ref in zip(pats, existences, refs):
+        pat = [list(se), list(te)]
+        if not ref:
+            continue
+        ex_arg = existence if case['ex'] != 'none' else None
+        corrected = {}
+        mats = set()
+        for x in space+extra:
+            res['evals'] += 1
+            res['trans'] += 1
+            is_extra = x in extra and x not in space
+            if is_extra:
+                feats['out_of_range'] = feats.get('out_of_range', 0) + 1
+            try:
+                xi, act, M = mgr.get_matrix(list(x), existence=ex_arg)
+                xi = [int(v) for v in xi]
+                act = [bool(a) for a in act]
+            except Exception as e:
+                viol('get-matrix-raised', dict(x=x, exc=(type(e).__name__, str(e)[:200])), pat)
+                ok_encoder = False
+                break
+            flagged = M.shape[0] > 0 and M.shape[1] > 0 and M[0, 0] == -1
+            if flagged:
+                if not is_violation_imputer:
+                    viol('invalid-matrix-flag-from-repairing-imputer', dict(x=x), pat)
+                    ok_encoder = False
+                    break
+                continue
+            Mt = tup(M)
+            if Mt not in ref:
+                viol('decoded-matrix-invalid', dict(x=x, x_imp=xi, matrix=Mt), pat)
+                ok_encoder = False
+                break
+            xin = xi[:len(n_opts)]
+            if any(not (0 <= v < k) for v, k in zip(xin, n_opts)) or len(xi) < len(n_opts):
+                viol('corrected-vector-out-of-range', dict(x=x, x_imp=xi), pat)
+                ok_encoder = False
+                break
+            if any(a for a in act[len(n_opts):]) or any(v != 0 for v in xi[len(n_opts):]):
+                viol('extra-entries-not-inactive', dict(x=x, x_imp=xi, act=act), pat)
+                ok_encoder = False
+                break
+            if tuple(xin) != tuple(x[:len(n_opts)]):
+                feats['imputed'] = feats.get('imputed', 0) + 1
+            # C07 at manager level
+            for i, (v, a, dv) in enumerate(zip(xin, act, dvs)):
+                if not a:
+                    feats['inactive_var'] = feats.get('inactive_var', 0) + 1
+                    if v != 0:
+                        viol('C07-inactive-not-canonical', dict(x=x, x_imp=xi, act=act), pat)
+                        ok_encoder = False
+                    if not dv.conditionally_active:
+                        viol('C07-unconditional-variable-inactive', dict(x=x, x_imp=xi, act=act, var=i), pat)
+                        ok_encoder = False
+                else:
+                    used_values[i].add(v)
+            if not ok_encoder:
+                break
+            # idempotent (twice)
+            for rep in (1, 2):
+                x2, a2, M2 = mgr.get_matrix(list(xin), existence=ex_arg)
+                res['trans'] += 1
+                if [int(v) for v in x2][:len(n_opts)] != xin or [bool(a) for a in a2][:len(n_opts)] != act[:len(n_opts)] \
+                        or tup(M2) != Mt:
+                    viol('not-idempotent', dict(x=x, x_imp=xin, again=[int(v) for v in x2], act=act,
+                                                act_again=[bool(a) for a in a2], same_matrix=tup(M2) == Mt, rep=rep), pat)
+                    ok_encoder = False
+                    break
+            if not ok_encoder:
+                break
+            prev = corrected.setdefault(tuple(xin), (Mt, tuple(act[:len(n_opts)])))
+            if prev[0] != Mt:
+                viol('same-corrected-vector-different-matrix', dict(x=x, x_imp=xin), pat)
+                ok_encoder = False
+                break
+            if prev[1] != tuple(act[:len(n_opts)]):
+                viol('C07-activeness-depends-on-raw-vector', dict(x=x, x_imp=xin, act=act, other=prev[1]), pat)
+                ok_encoder = False
+                break
+            mats.add(Mt)
+        if not ok_encoder:
+            break
+        if is_violation_imputer:
+            # direct hits are never flagged: every listed design vector decodes to a valid matrix
+            pass
+        elif mats != ref:
+            viol('not-onto', dict(missing=sorted(ref-mats)[:3], n_ref=len(ref), n_got=len(mats)), pat)
+            break
+        # listed design vectors
+        listed = all_dv.get(existence) if existence in all_dv else all_dv.get(NodeExistence())
+        if listed is None:
+            viol('pattern-missing-from-design-vector-listing', {}, pat)
+            break
+        listed_rows = [tuple(int(v) for v in r) for r in listed]
+        zeros = {tuple(max(v, 0) for v in r)[:len(n_opts)] for r in listed_rows}
+        if not is_violation_imputer and zeros != set(corrected):
+            viol('listed-design-vectors-differ', dict(only_listed=sorted(zeros-set(corrected))[:3],
+                                                       only_decoded=sorted(set(corrected)-zeros)[:3],
+                                                       n_listed=len(zeros), n_decoded=len(corrected)), pat)
+            break
+        if len(zeros) != len(listed_rows):
+            viol('listed-design-vectors-not-unique', dict(n=len(listed_rows), distinct=len(zeros)), pat)
+            break
+        # C07: the listed activeness (-1 pattern) equals the decoded activeness, also for the constraint-violation imputers
+        for r in listed_rows:
+            x0 = [max(v, 0) for v in r][:len(n_opts)]
+            xr, ar, Mr = mgr.get_matrix(list(x0), existence=ex_arg)
+            res['trans'] += 1
+            if Mr.shape[0] > 0 and Mr.shape[1] > 0 and Mr[0, 0] == -1:
+                viol('listed-design-vector-flagged-invalid', dict(row=r), pat)
+                ok_encoder = False
+                break
+            if [int(v) for v in xr][:len(n_opts)] != x0:
+                viol('listed-design-vector-not-a-fixed-point', dict(row=r, decoded=[int(v) for v in xr]), pat)
+                ok_encoder = False
+                break
+            if [bool(a) for a in ar][:len(n_opts)] != [v != -1 for v in r][:len(n_opts)]:
+                viol('C07-listed-activeness-differs-from-decode', dict(row=r, decoded=[bool(a) for a in ar]), pat)
+                ok_encoder = False
+                break
+        if not ok_encoder:
+            break
+    if ok_encoder and not is_violation_imputer:
+        for i, vals in enumerate(used_values):
+            if len(vals) < 2:
+                viol('variable-with-less-than-two-used-values', dict(var=i, n_opts=n_opts[i], used=sorted(vals)))
+                break
+
+
 def run_case(case):
     from adsg_core.optimization.assign_enc.matrix import MatrixGenSettings, NodeExistence, NodeExistencePatterns
     from adsg_core.optimization.assign_enc.assignment_manager import AssignmentManager, LazyAssignmentManager
@@ -155,156 +314,7 @@ def run_case(case):
             except Exception as e:
                 viol('encoder-construction-raised', dict(exc=(type(e).__name__, str(e)[:200])))
                 continue
-            feats[kind if kind != 'pattern' else 'pattern_ok'] = feats.get(kind if kind != 'pattern' else 'pattern_ok', 0) + 1
-            res['states'] += 1
-            n_opts = [dv.n_opts for dv in dvs]
-            size = int(np.prod(n_opts)) if n_opts else 1
-            if size > MAX_SPACE[_TIER[0]]:
-                res.setdefault('caps', {})['space_too_large'] = res.get('caps', {}).get('space_too_large', 0) + 1
-                continue
-            space = list(itertools.product(*[range(k) for k in n_opts]))
-            extra = []
-            base = [0]*len(n_opts)
-            for i, k in enumerate(n_opts):
-                for v in (-1, k, k+3):
-                    x = list(base)
-                    x[i] = v
-                    extra.append(tuple(x))
-            extra.append(tuple(base+[0]))
-            extra.append(tuple(base+[1, 1]))
-            try:
-                all_dv = mgr.get_all_design_vectors()
-            except Exception as e:
-                viol('get-all-design-vectors-raised', dict(exc=(type(e).__name__, str(e)[:200])))
-                continue
-            used_values = [set() for _ in n_opts]
-            ok_encoder = True
-            for (se, te), existence, ref in zip(pats, existences, refs):
-                pat = [list(se), list(te)]
-                if not ref:
-                    continue
-                ex_arg = existence if case['ex'] != 'none' else None
-                corrected = {}
-                mats = set()
-                for x in space+extra:
-                    res['evals'] += 1
-                    res['trans'] += 1
-                    is_extra = x in extra and x not in space
-                    if is_extra:
-                        feats['out_of_range'] = feats.get('out_of_range', 0) + 1
-                    try:
-                        xi, act, M = mgr.get_matrix(list(x), existence=ex_arg)
-                        xi = [int(v) for v in xi]
-                        act = [bool(a) for a in act]
-                    except Exception as e:
-                        viol('get-matrix-raised', dict(x=x, exc=(type(e).__name__, str(e)[:200])), pat)
-                        ok_encoder = False
-                        break
-                    flagged = M.shape[0] > 0 and M.shape[1] > 0 and M[0, 0] == -1
-                    if flagged:
-                        if not is_violation_imputer:
-                            viol('invalid-matrix-flag-from-repairing-imputer', dict(x=x), pat)
-                            ok_encoder = False
-                            break
-                        continue
-                    Mt = tup(M)
-                    if Mt not in ref:
-                        viol('decoded-matrix-invalid', dict(x=x, x_imp=xi, matrix=Mt), pat)
-                        ok_encoder = False
-                        break
-                    xin = xi[:len(n_opts)]
-                    if any(not (0 <= v < k) for v, k in zip(xin, n_opts)) or len(xi) < len(n_opts):
-                        viol('corrected-vector-out-of-range', dict(x=x, x_imp=xi), pat)
-                        ok_encoder = False
-                        break
-                    if any(a for a in act[len(n_opts):]) or any(v != 0 for v in xi[len(n_opts):]):
-                        viol('extra-entries-not-inactive', dict(x=x, x_imp=xi, act=act), pat)
-                        ok_encoder = False
-                        break
-                    if tuple(xin) != tuple(x[:len(n_opts)]):
-                        feats['imputed'] = feats.get('imputed', 0) + 1
-                    # C07 at manager level
-                    for i, (v, a, dv) in enumerate(zip(xin, act, dvs)):
-                        if not a:
-                            feats['inactive_var'] = feats.get('inactive_var', 0) + 1
-                            if v != 0:
-                                viol('C07-inactive-not-canonical', dict(x=x, x_imp=xi, act=act), pat)
-                                ok_encoder = False
-                            if not dv.conditionally_active:
-                                viol('C07-unconditional-variable-inactive', dict(x=x, x_imp=xi, act=act, var=i), pat)
-                                ok_encoder = False
-                        else:
-                            used_values[i].add(v)
-                    if not ok_encoder:
-                        break
-                    # idempotent (twice)
-                    for rep in (1, 2):
-                        x2, a2, M2 = mgr.get_matrix(list(xin), existence=ex_arg)
-                        res['trans'] += 1
-                        if [int(v) for v in x2][:len(n_opts)] != xin or [bool(a) for a in a2][:len(n_opts)] != act[:len(n_opts)] \
-                                or tup(M2) != Mt:
-                            viol('not-idempotent', dict(x=x, x_imp=xin, again=[int(v) for v in x2], act=act,
-                                                        act_again=[bool(a) for a in a2], same_matrix=tup(M2) == Mt, rep=rep), pat)
-                            ok_encoder = False
-                            break
-                    if not ok_encoder:
-                        break
-                    prev = corrected.setdefault(tuple(xin), (Mt, tuple(act[:len(n_opts)])))
-                    if prev[0] != Mt:
-                        viol('same-corrected-vector-different-matrix', dict(x=x, x_imp=xin), pat)
-                        ok_encoder = False
-                        break
-                    if prev[1] != tuple(act[:len(n_opts)]):
-                        viol('C07-activeness-depends-on-raw-vector', dict(x=x, x_imp=xin, act=act, other=prev[1]), pat)
-                        ok_encoder = False
-                        break
-                    mats.add(Mt)
-                if not ok_encoder:
-                    break
-                if is_violation_imputer:
-                    # direct hits are never flagged: every listed design vector decodes to a valid matrix
-                    pass
-                elif mats != ref:
-                    viol('not-onto', dict(missing=sorted(ref-mats)[:3], n_ref=len(ref), n_got=len(mats)), pat)
-                    break
-                # listed design vectors
-                listed = all_dv.get(existence) if existence in all_dv else all_dv.get(NodeExistence())
-                if listed is None:
-                    viol('pattern-missing-from-design-vector-listing', {}, pat)
-                    break
-                listed_rows = [tuple(int(v) for v in r) for r in listed]
-                zeros = {tuple(max(v, 0) for v in r)[:len(n_opts)] for r in listed_rows}
-                if not is_violation_imputer and zeros != set(corrected):
-                    viol('listed-design-vectors-differ', dict(only_listed=sorted(zeros-set(corrected))[:3],
-                                                               only_decoded=sorted(set(corrected)-zeros)[:3],
-                                                               n_listed=len(zeros), n_decoded=len(corrected)), pat)
-                    break
-                if len(zeros) != len(listed_rows):
-                    viol('listed-design-vectors-not-unique', dict(n=len(listed_rows), distinct=len(zeros)), pat)
-                    break
-                # C07: the listed activeness (-1 pattern) equals the decoded activeness, also for the constraint-violation imputers
-                for r in listed_rows:
-                    x0 = [max(v, 0) for v in r][:len(n_opts)]
-                    xr, ar, Mr = mgr.get_matrix(list(x0), existence=ex_arg)
-                    res['trans'] += 1
-                    if Mr.shape[0] > 0 and Mr.shape[1] > 0 and Mr[0, 0] == -1:
-                        viol('listed-design-vector-flagged-invalid', dict(row=r), pat)
-                        ok_encoder = False
-                        break
-                    if [int(v) for v in xr][:len(n_opts)] != x0:
-                        viol('listed-design-vector-not-a-fixed-point', dict(row=r, decoded=[int(v) for v in xr]), pat)
-                        ok_encoder = False
-                        break
-                    if [bool(a) for a in ar][:len(n_opts)] != [v != -1 for v in r][:len(n_opts)]:
-                        viol('C07-listed-activeness-differs-from-decode', dict(row=r, decoded=[bool(a) for a in ar]), pat)
-                        ok_encoder = False
-                        break
-                if not ok_encoder:
-                    break
-            if ok_encoder and not is_violation_imputer:
-                for i, vals in enumerate(used_values):
-                    if len(vals) < 2:
-                        viol('variable-with-less-than-two-used-values', dict(var=i, n_opts=n_opts[i], used=sorted(vals)))
-                        break
+            check_manager(mgr, dvs, case, pats, existences, refs, res, viol, is_violation_imputer=is_violation_imputer,
+                          kind=kind, max_space=MAX_SPACE[_TIER[0]])
     res['sample'] = dict(case=case, n_patterns=len(pats), ref_sizes=[len(r) for r in refs])
     return res
